@@ -74,7 +74,7 @@ def run(tier):
     rep.exhaustive = False
 
     # 3. float schedules and stock cases ----------------------------------------------------
-    fl = tdsfam.known_float_regressions() + tdsfam.late_schedules() + tdsfam.float_schedules(40 if quick else 600, rnd, tf_max=2.0 if quick else 4.0)
+    fl = tdsfam.known_float_regressions() + tdsfam.late_schedules() + tdsfam.init_then_run_scenarios() + tdsfam.float_schedules(40 if quick else 600, rnd, tf_max=2.0 if quick else 4.0)
     out2 = tdsfam.run_and_validate(fl, rep, label="float schedules")
     tdsfam.judge(PID, out2, rep)
     st = tdsfam.stock_scenarios(limit=4 if quick else None)
